@@ -35,6 +35,8 @@ def make_probe_tasks(names, ctx_ref, payloads):
         def do(self, env, config):
             ctx = ctx_ref[0]
             i = self.i
+            if ctx is None:                 # concrete warm-up run (Config.prior)
+                return {self.name: {'result': payloads[i]}}, TaskStatus.DONE
 
             def upd(c):
                 c.write(f'x{i}', c.read(f'x{i}') + 1)
@@ -61,7 +63,8 @@ def make_probe_tasks(names, ctx_ref, payloads):
 
 class Config:
     """one scheduling configuration: tasks, hard/soft edges, number of workers"""
-    def __init__(self, n_tasks, hard, soft, n_workers):
+    def __init__(self, n_tasks, hard, soft, n_workers, prior=None):
+        self.prior = prior              # (hard, soft) of a graph scheduled EARLIER in the process with the same task objects
         self.n = n_tasks
         self.hard = sorted(hard)        # (i, j): task i depends (hard) on task j
         self.soft = sorted(soft)
@@ -108,6 +111,13 @@ def extract(cfg, role, extra_fields=(), max_paths=200000):
     ctx_ref = [None]
     tasks = make_probe_tasks(cfg.names, ctx_ref, payloads)
     WT = qmod.QueueScheduling.WorkerThread
+    if cfg.prior is not None and role == 'master':
+        # "whatever was scheduled earlier in the process": a real, concrete run of another graph over the SAME
+        # task objects, so that any process-wide state keyed by tasks is populated before the extraction
+        ph, ps = cfg.prior
+        pc = Config(cfg.n, ph, ps, 1)
+        hard, soft = _graphs(pc, tasks)
+        Scheduler(hard_graph=hard, soft_graph=soft, backend=qmod.QueueScheduling(n_workers=1)).schedule(env=Env())
 
     def harness(ex):
         ctx = Ctx(ex, aut, schema, intern, role)
